@@ -15,7 +15,7 @@ from vf.util import Rng, split_seeds, spec_seeds, replay_spec, short
 ID = 'C03'
 LEVEL = 'exploration'
 TECHNIQUE = 'runtime monitor: reference event recorder vs recorded actions (multiset equality per trace event)'
-RULE = ('generated multi-function / multi-thread programs (40 shapes: loops, recursion, exceptions, generators, coroutines with and without an asyncio event loop, '
+RULE = ('generated multi-function / multi-thread programs (41 shapes: loops, recursion, exceptions, generators, coroutines with and without an asyncio event loop, '
         'iterators, with, closures, classes, threads) x 0-8 tracepoints: line tracepoints on executed and '
         'never-executed lines, def lines, the same line number in another file, several tracepoints on one line '
         '(separate triggers or merged as convert_response does), method tracepoints by name, the stage argument spelled out (with a line tracepoint also naming its function), tracepoints that are installed while functions of the program are already running, four action kinds; '
